@@ -82,6 +82,7 @@ func hasBackEdgeTo(b, h *ssa.BasicBlock) bool {
 
 func runC10(c *Ctx) {
 	runC10Synthetic(c)
+	runC10StepGuardedByIndexedSlice(c)
 	runC10NilWrites(c)
 	runC10NilFields(c)
 	runC10PerObjectErrors(c)
@@ -870,4 +871,87 @@ func derivesFromLoopElement(v ssa.Value, depth int) bool {
 		return derivesFromLoopElement(x.X, depth-1)
 	}
 	return false
+}
+
+// runC10StepGuardedByIndexedSlice (O11): "take one more step if there is room" — an index that is advanced under a test
+// `i+1 < len(S)` and then used to index a slice X is in range only if S is X. In the min-runtime resolver the step
+// down from the lowest common ancestor is guarded by the length of the path it then indexes; guarded by the other
+// path's length it runs past the end whenever the victim's queue path is a strict prefix of the reclaimer's, and the
+// reclaim action panics for every cycle in which such a pair of workloads exists.
+func runC10StepGuardedByIndexedSlice(c *Ctx) {
+	n := 0
+	for _, fn := range c.P.FuncsIn("pkg/scheduler/plugins/minruntime") {
+		for _, b := range fn.Blocks {
+			iff, ok := b.Instrs[len(b.Instrs)-1].(*ssa.If)
+			if !ok {
+				continue
+			}
+			cmp, ok := iff.Cond.(*ssa.BinOp)
+			if !ok || cmp.Op != token.LSS {
+				continue
+			}
+			add, ok := cmp.X.(*ssa.BinOp)
+			if !ok || add.Op != token.ADD {
+				continue
+			}
+			if k, isK := add.Y.(*ssa.Const); !isK || k.Value == nil || k.Value.ExactString() != "1" {
+				continue
+			}
+			lenCall, ok := cmp.Y.(*ssa.Call)
+			if !ok {
+				continue
+			}
+			if bi, isB := lenCall.Call.Value.(*ssa.Builtin); !isB || bi.Name() != "len" {
+				continue
+			}
+			guardSlice := termOf(lenCall.Call.Args[0]).String()
+			// values derived from the advanced index: i+1 itself (recomputed or reused), φ of it, ± constants
+			derived := map[ssa.Value]bool{}
+			for _, bb := range fn.Blocks {
+				for _, in := range bb.Instrs {
+					if bo, ok := in.(*ssa.BinOp); ok && bo.Op == token.ADD && bo.X == add.X {
+						if k, isK := bo.Y.(*ssa.Const); isK && k.Value != nil && k.Value.ExactString() == "1" && (bo == add || b.Dominates(bb)) {
+							derived[bo] = true
+						}
+					}
+				}
+			}
+			for changed := true; changed; {
+				changed = false
+				for _, bb := range fn.Blocks {
+					for _, in := range bb.Instrs {
+						v, isV := in.(ssa.Value)
+						if !isV || derived[v] {
+							continue
+						}
+						switch x := in.(type) {
+						case *ssa.Phi:
+							for _, e := range x.Edges {
+								if derived[e] {
+									derived[v], changed = true, true
+								}
+							}
+						case *ssa.BinOp:
+							if _, isK := x.Y.(*ssa.Const); isK && (x.Op == token.ADD || x.Op == token.SUB) && derived[x.X] {
+								derived[v], changed = true, true
+							}
+						}
+					}
+				}
+			}
+			for _, bb := range fn.Blocks {
+				for _, in := range bb.Instrs {
+					ia, ok := in.(*ssa.IndexAddr)
+					if !ok || !derived[ia.Index] {
+						continue
+					}
+					n++
+					indexed := termOf(ia.X).String()
+					c.Check(indexed == guardSlice, "O11", "DOM", funcKey(fn)+": the step is guarded by the length of the slice it indexes", instrPos(ia), "i+1 < len("+trunc(guardSlice, 40)+") guards "+trunc(indexed, 40)+"[i]",
+						"an index advanced under `i+1 < len("+trunc(guardSlice, 60)+")` is used to index "+trunc(indexed, 60)+": when that slice is the shorter one the access is out of range and the action panics in every cycle in which the two workloads exist")
+				}
+			}
+		}
+	}
+	c.Floor("O11", "DOM index steps guarded by a slice length in the min-runtime resolver", n, 1)
 }
